@@ -118,7 +118,17 @@ def replay(a, mod):
 
 
 if __name__ == "__main__":
-    rc = main()
+    try:
+        rc = main()
+    finally:
+        # scratch directories of this check (a harness stopped by a failing tree leaves them behind otherwise)
+        import glob, shutil
+        for d in glob.glob(os.path.join(os.environ.get("TMPDIR", "/tmp"), "c1[39]_*")):
+            try:
+                if os.path.exists(os.path.join(d, f".owner{os.getpid()}")):
+                    shutil.rmtree(d, ignore_errors=True)
+            except OSError:
+                pass
     sys.stdout.flush()
     sys.stderr.flush()
     os._exit(rc)        # worker threads stuck in non-terminating library code must not keep the check alive
